@@ -4,14 +4,16 @@ import common, fns, sweeps, crops, labelled
 from common import quiet, canon
 
 PROP = 'C12'
-LEAN_MODULES = ['XyzProofs.Props.C12', 'XyzProofs.Refine.Reap', 'XyzProofs.Props.C12Skel']
+LEAN_MODULES = ['XyzProofs.Props.C12', 'XyzProofs.Refine.Reap', 'XyzProofs.Props.C12Skel', 'XyzProofs.Refine.Lifecycle']
 THEOREMS = ['Crop.c12_err_leaves_crop', 'Crop.c12_deleted_iff', 'Crop.c12_retry_exact', 'Crop.c12_options',
             'Crop.reapLinear_congr', 'Crop.reapLinear_dir',
             'Refine.calcCleanUp_refines', 'Refine.checkReady_refines',
-            'Skel.splitDel_spec', 'Skel.splitDel_none', 'Skel.reapCombos_deleteLast', 'Skel.reapCombos_deletes_iff', 'Skel.reapCombos_errorKeeps', 'Skel.reapCombos_before', 'Skel.reapRunner_deleteLast_partial', 'Skel.reapRunner_deletes_iff', 'Skel.reapRunner_before', 'Skel.reapHarvest_deleteLast', 'Skel.reapHarvest_deletes_iff', 'Skel.reapHarvest_sync_before_delete', 'Skel.reapHarvest_errorKeeps', 'Skel.reapSamples_deleteLast', 'Skel.reapSamples_deletes_iff', 'Skel.reapSamples_sync_before_delete', 'Skel.reapSamples_errorKeeps']
+            'Skel.splitDel_spec', 'Skel.splitDel_none', 'Skel.reapCombos_deleteLast', 'Skel.reapCombos_deletes_iff', 'Skel.reapCombos_errorKeeps', 'Skel.reapCombos_before', 'Skel.reapRunner_deleteLast_partial', 'Skel.reapRunner_deletes_iff', 'Skel.reapRunner_before', 'Skel.reapHarvest_deleteLast', 'Skel.reapHarvest_deletes_iff', 'Skel.reapHarvest_sync_before_delete', 'Skel.reapHarvest_errorKeeps', 'Skel.reapSamples_deleteLast', 'Skel.reapSamples_deletes_iff', 'Skel.reapSamples_sync_before_delete', 'Skel.reapSamples_errorKeeps',
+            'Lc.reapCombos_refines', 'Lc.reapCombosToDs_refines', 'Lc.reapRunner_refines', 'Lc.deleteAll_refines']
 ANCHORS = ['cleanUpDefault', 'harvestDefersCleanup', 'samplesDefersCleanup', 'isReady',
            'calcCleanUp', 'checkReady',
-           'reapCombosSk', 'reapCombosToDsSk', 'reapRunnerSk', 'reapHarvestSk', 'reapSamplesSk']
+           'reapCombosSk', 'reapCombosToDsSk', 'reapRunnerSk', 'reapHarvestSk', 'reapSamplesSk',
+           'reapCombosLc', 'reapCombosToDsLc', 'reapRunnerLc', 'deleteAllLc']
 RULE = ("the full table clean_up in {None, True, False} x allow_incomplete x wait x farmer kind {raw, Runner, Harvester, "
         "Sampler} x failure stage {none, incomplete crop, unreadable result, wrong output description, harvester merge "
         "conflict, save error} (stages that do not apply to a kind are skipped; wait is only combined with fully grown "
